@@ -78,7 +78,10 @@ def run_check(pid, tier, replay=None):
         vh = C.build_harness(scratch)
         if replay:
             obj = json.load(open(replay))
-            if obj.get("kind") == "caseconv":
+            if obj.get("kind") == "ez":
+                res, crashes = run_cases(vh, scratch, [obj["case"]], workers=1, subcmd="ez")
+                bad = crashes or [m for r in res for m in (r.get("mismatches") or []) if m["kind"] in ("prop", "panic")]
+            elif obj.get("kind") == "caseconv":
                 cf, rf = scratch.path("ident-cases"), scratch.path("ident-results")
                 open(cf, "w").write(json.dumps(obj["case"]) + "\n")
                 p = subprocess.run([vh, "caseconv", cf, rf], capture_output=True, text=True, timeout=600)
@@ -197,6 +200,16 @@ def run_check(pid, tier, replay=None):
         byid = {c["id"]: c for c in todo}
         known = C.load_known()["findings"]
         violations, known_hits, other = [], set(), {}
+        ez_alias = None
+        if pid == "C14":
+            # "files read through alias-wrapped decoders as ez does": through the real ez entry points (Ez.tla cases in which the
+            # file writes the aliased leaf under its alias, with and without a FileFieldNameEncoder)
+            from . import ezcheck
+            bad, n_ez, ez_states = ezcheck.alias_cases(vh, scratch, seed, quick)
+            ez_alias = {"cases": n_ez, "distinct_states": ez_states, "mismatches": len(bad)}
+            for detail, case in bad[:10]:
+                rp = C.write_replay(pid, "ez-%d" % len(violations), {"property": pid, "kind": "ez", "case": case, "detail": detail})
+                violations.append(("ez case %s: %s" % ((case or {}).get("id"), detail[:200]), rp))
         for what, case in ident_viol[:10]:
             rp = C.write_replay(pid, "ident-%d" % len(violations), {"property": pid, "kind": "caseconv", "case": case})
             violations.append((what, rp))
@@ -231,7 +244,7 @@ def run_check(pid, tier, replay=None):
                     "embedded structs) + which leaves are supplied and under which name; each case run through env, flag, pflag, the four "
                     "decoders wrapped as ez wraps them, and the bare transformer chains; non-trivial = at least two leaves and at least one "
                     "supplied; distinct by content" % ", ".join(ALL_KINDS),
-            "model_runs": runs, "mismatches_by_property": other, "crashes": len(crashes), "identifier_texts_swept": ident_n,
+            "model_runs": runs, "mismatches_by_property": other, "crashes": len(crashes), "identifier_texts_swept": ident_n, "through_ez": ez_alias,
             "checker_cmd": "tlc MCSources (exhaustive small universe) ; tlc -simulate MCSources ; vh sources cases results",
         }
         level = "exploration" if pid == "C16" else "model_checking"
